@@ -32,11 +32,7 @@ def main():
             if r.returncode != 0:
                 out[sha] = {"property": prop, "reverted": False, "error": r.stderr[-300:]}
                 continue
-            ev = f"/verif/evidence/{prop}.json"
-            keep = open(ev).read() if os.path.exists(ev) else None
             p = sh([PY, "-m", "mc.run", prop, "--tier", "quick"], cwd="/verif", env=dict(os.environ, MC_REPO=wt, PYTHONPATH=wt), timeout=3600)
-            if keep is not None:
-                open(ev, "w").write(keep)
             lines = p.stdout.strip().splitlines()
             out[sha] = {"property": prop, "reverted": True, "exit": p.returncode, "guarded": p.returncode == 1,
                         "summary": lines[-1] if lines else "", "first": [l[:260] for l in lines if l.startswith("  violation")][:2]}
